@@ -1,8 +1,8 @@
 """
 Cooperative scheduler for generator twins (G) and step-granting controller for real threads (H).
 
-A *schedule* is a list of (step, target): before global step number `step` the processor is handed to
-thread `target` (a pre-emption).  Otherwise the running thread keeps running until it finishes or blocks
+A *schedule* is a list of (step, k): before global step number `step` the processor is taken from the
+running thread and handed to the (k+1)-th other runnable thread after it, cyclically (a pre-emption).  Otherwise the running thread keeps running until it finishes or blocks
 on a lock, in which case the lowest-numbered runnable thread continues (a forced switch, not counted).
 A step = resuming one thread until its next tick (statement boundary of instrumented code).
 
@@ -118,8 +118,10 @@ gen.HELPERS["G"] = {"_vp_call_G": _g_call, "_vp_is_lock_G": _g_is_lock, "_vp_acq
 
 
 class Sched:
-    def __init__(self, entries, schedule, max_steps=4000):
+    def __init__(self, entries, schedule, max_steps=4000, allow_unfired=False):
         """entries: list of (callable, args, kwargs) - one logical thread each (callable must have a G twin or is run atomically)."""
+        self.allow_unfired = allow_unfired
+        self.unfired = []
         self.entries = entries
         self.schedule = list(schedule)
         self.max_steps = max_steps
@@ -161,8 +163,12 @@ class Sched:
                 # pre-emption requested before this step?
                 for (s, t) in sched:
                     if s == step:
-                        if not (0 <= t < n) or not runnable(t):
+                        # target = the (t+1)-th OTHER runnable thread after the running one, cyclically (None = 0)
+                        others = [u % n for u in range(cur + 1, cur + n) if runnable(u % n)]
+                        k = 0 if t is None else t
+                        if not (0 <= k < len(others)):
                             raise InfeasibleSchedule((s, t))
+                        t = others[k]
                         if t != cur:
                             self.preemptions_used += 1
                         cur = t
@@ -185,6 +191,8 @@ class Sched:
                     self.results[cur] = ("ok", e.value)
                     self.trace.append((cur, "done"))
                 except Exception as e:  # noqa - outcome of the logical thread
+                    if type(e).__module__.startswith("crosshair"):
+                        raise  # the symbolic engine's own control flow
                     alive[cur] = False
                     self.results[cur] = ("exc", e)
                     self.trace.append((cur, "raised:" + type(e).__name__))
@@ -192,14 +200,19 @@ class Sched:
                 if step > self.max_steps:
                     raise StepLimit(step)
             self.steps = step
-            for (s, t) in sched:
-                if s >= step:
-                    raise InfeasibleSchedule((s, t))
+            # slots that never fired (step beyond the end of the run)
+            self.unfired = [i for i, (s, t) in enumerate(sched) if not (s < step)]
+            if self.unfired and not self.allow_unfired:
+                raise InfeasibleSchedule(sched[self.unfired[0]])
         finally:
+            for i, g in enumerate(gens):
+                self.current = i
+                try:
+                    g.close()  # aborted run: unwinds the twin's finally blocks (lock releases) first
+                except Exception:  # noqa - e.g. suspended at a tick inside a finally block: drop it
+                    pass
             self.current = None
             _ACTIVE[0] = prev
-            for g in gens:
-                g.close()
         return self.results
 
 
@@ -307,8 +320,12 @@ class RealThreads:
 
                 for (s, t) in self.schedule:
                     if s == step:
-                        if not (0 <= t < n) or not runnable(t):
+                        # target = the (t+1)-th OTHER runnable thread after the running one, cyclically (None = 0)
+                        others = [u % n for u in range(cur + 1, cur + n) if runnable(u % n)]
+                        k = 0 if t is None else t
+                        if not (0 <= k < len(others)):
                             raise InfeasibleSchedule((s, t))
+                        t = others[k]
                         if t != cur:
                             self.preemptions_used += 1
                         cur = t
